@@ -180,9 +180,10 @@ Theorem C06_cpc_tables_ok :
 Proof. exact cpc_tables_ok. Qed.
 
 Theorem C06_composite_tables_ok :
-  Z.of_nat (length composite_xArrs) = hll_MAX_LOG_K - hll_MIN_LOG_K + 1 /\
-  length composite_yStrides = length composite_xArrs /\
-  forallb (fun r => (Z.of_nat (length r) =? composite_numXArrValues) && sorted_strict r && fpos (fnth r 0)) composite_xArrs = true /\
+  Z.of_nat (length composite_xArrs_bits) = hll_MAX_LOG_K - hll_MIN_LOG_K + 1 /\
+  length composite_yStrides = length composite_xArrs_bits /\
+  forallb (fun r => (Z.of_nat (length r) =? composite_numXArrValues) && sorted_strict (map FloatBits.bits_to_float r)
+                    && fpos (FloatBits.bits_to_float (znth r 0))) composite_xArrs_bits = true /\
   forallb (fun v => 0 <? v) composite_yStrides = true /\ 4 <= composite_numXArrValues.
 Proof. exact composite_tables_ok. Qed.
 
@@ -226,6 +227,19 @@ Proof. vm_compute. split; reflexivity. Qed.
 Example C06_nonvacuous_icon :
   match icon_estimate 10 3000 with Exact 3 v => PrimFloat.ltb (fofZ 3000) v | _ => false end
   && PrimFloat.eqb (icon_clamp fops (fofZ 5) 9) (fofZ 9) = true.
+Proof. vm_compute. reflexivity. Qed.
+
+(* the exact binomial tails (n = 4, theta = 1/2, 2 std devs; pow values 1/16 and 1/32) and the composite HLL estimator
+   (lg_k = 8, kxq0 = 100, bitmap estimate 300: the interpolated branch is chosen) *)
+Example C06_nonvacuous_exact_tail_composite :
+  match approx_lb 4 c_half 2 (PrimFloat.div PrimFloat.one (fofZ 16)), approx_ub 4 c_half 2 (PrimFloat.div PrimFloat.one (fofZ 32)) with
+  | Exact 7 a, Exact 7 b => PrimFloat.eqb a (fofZ 3) && PrimFloat.eqb b (fofZ 18)
+  | _, _ => false
+  end &&
+  match hll_composite 8 (fofZ 100) PrimFloat.zero (fofZ 300) with
+  | Some v => PrimFloat.ltb (fofZ 430) v && PrimFloat.ltb v (fofZ 431)
+  | None => false
+  end = true.
 Proof. vm_compute. reflexivity. Qed.
 
 Print Assumptions C06_binomial_bounds_order.
